@@ -211,6 +211,10 @@ func cmdWorker(args []string) int {
 		if es, ok := e.(interface{ EnumStream(int) uint64 }); ok {
 			stream = es.EnumStream(p)
 		}
+		// (announced like the seeded runs: the parent's no-progress watchdog
+		// listens to these lines)
+		eidx := uint64(1<<40) + uint64(p)
+		out.Encode(workerOut{Start: &eidx})
 		c := simrt.NewSearchChooser(*seed, uint64(1<<40)+stream)
 		res := runOne(e, c, p, o, stats, false)
 		nenum++
@@ -466,6 +470,7 @@ func cmdCheck(args []string) int {
 			sc.Buffer(make([]byte, 1<<20), 1<<30)
 			lastStart := uint64(0)
 			started := uint64(0)
+			inEnum := false
 			var lastOut atomic.Int64
 			lastOut.Store(time.Now().UnixNano())
 			var hung atomic.Bool
@@ -493,8 +498,13 @@ func cmdCheck(args []string) int {
 					continue
 				}
 				if wo.Start != nil {
-					lastStart = *wo.Start
-					started++
+					if *wo.Start >= 1<<40 {
+						inEnum = true // an enumerated case: only the watchdog is interested
+					} else {
+						inEnum = false
+						lastStart = *wo.Start
+						started++
+					}
 					continue
 				}
 				mu.Lock()
@@ -528,7 +538,7 @@ func cmdCheck(args []string) int {
 				return
 			}
 			if hung.Load() {
-				if fromCode, _ := hangFromCode(errBuf.String()); fromCode && started > 0 && lastStart < 1<<40 {
+				if fromCode, _ := hangFromCode(errBuf.String()); fromCode && started > 0 && !inEnum {
 					mu.Lock()
 					fatalFails = append(fatalFails, &fatalFail{Idx: lastStart, Class: hangClass, Report: errBuf.String(), Hang: true})
 					if tag == "" {
@@ -563,7 +573,7 @@ func cmdCheck(args []string) int {
 				from = lastStart + uint64(nw)
 				continue
 			}
-			if class, fromCode := fatalClass(errBuf.String()); fromCode && started > 0 && lastStart < 1<<40 {
+			if class, fromCode := fatalClass(errBuf.String()); fromCode && started > 0 && !inEnum {
 				// the code under test ran into a fatal runtime error: a finding about
 				// the code, confirmed and reported below; go on after that run
 				mu.Lock()
